@@ -132,3 +132,32 @@ Definition enc_ssl2_client_hello (version : Z) (ciphers : list Z) (session_id ch
 Definition enc_ssl2_server_hello (hit cert_type version : Z) (certificate : bytes) (ciphers : list Z) (connection_id : bytes) : bytes :=
   enc_uint 1 hit ++ enc_uint 1 cert_type ++ enc_uint 2 version ++ enc_uint 2 (zlen certificate) ++ enc_uint 2 (3 * zlen ciphers)
   ++ enc_uint 2 (zlen connection_id) ++ certificate ++ concat (map (enc_uint 3) ciphers) ++ connection_id.
+
+(* RFC 5246 7.4.4 (TLS 1.2) and RFC 2246 / 4346 7.4.4 (TLS 1.0 / 1.1, no supported_signature_algorithms):
+     struct { ClientCertificateType certificate_types<1..2^8-1>;
+              SignatureAndHashAlgorithm supported_signature_algorithms<2..2^16-2>;
+              DistinguishedName certificate_authorities<0..2^16-1>; } CertificateRequest;
+     opaque DistinguishedName<1..2^16-1>;                                  handshake type 13 *)
+Definition enc_certificate_request (types : list Z) (sigalgs : option (list Z)) (cas : list bytes) : option bytes :=
+  let? t := enc_uint_vec 1 1 255 types in
+  let? s := match sigalgs with None => Some [] | Some l => enc_uint_vec 2 2 65534 l end in
+  let? items := enc_opaque_items 1 65535 cas in
+  let? c := enc_opaque 0 65535 items in
+  enc_handshake 13 (t ++ s ++ c).
+Definition dec_certificate_request (with_sigalgs : bool) (b : bytes) : option ((list Z * option (list Z) * list bytes) * bytes) :=
+  let? (body, rest) := dec_handshake 13 b in
+  let? (types, r1) := dec_uint_vec 1 1 255 body in
+  let? (sa, r2) := (if with_sigalgs then let? (l, r) := dec_uint_vec 2 2 65534 r1 in Some (Some l, r) else Some (None, r1)) in
+  let? (cab, r3) := dec_opaque 0 65535 r2 in
+  let? cas := dec_opaque_items 1 65535 (S (length cab)) cab in
+  match r3 with [] => Some ((types, sa, cas), rest) | _ => None end.
+
+(* RFC 6066 8: struct { CertificateStatusType status_type; select (status_type) { case ocsp: OCSPResponse; } response; }
+   CertificateStatus;  opaque OCSPResponse<1..2^24-1>;                     handshake type 22 *)
+Definition enc_certificate_status (status_type : Z) (response : bytes) : option bytes :=
+  let? r := enc_opaque 1 16777215 response in enc_handshake 22 (enc_uint 1 status_type ++ r).
+Definition dec_certificate_status (b : bytes) : option ((Z * bytes) * bytes) :=
+  let? (body, rest) := dec_handshake 22 b in
+  let? (t, r1) := dec_uint 1 body in
+  let? (resp, r2) := dec_opaque 1 16777215 r1 in
+  match r2 with [] => Some ((t, resp), rest) | _ => None end.
